@@ -79,7 +79,8 @@ theorem delivered_once (cfg : Cfg) (env : Nat → Step) (a0 : List Nat) (fs : Li
 
 /-- what "the entitled ones" means for one frame: no party twice; the awaiting caller iff the id is awaited; the
 handler registered for the type or else the default handler, iff there is one; each with the frame's header fields;
-handlers are offered exactly the payload sent and read `min k n` of it; the caller gets exactly the payload, or — over
+handlers are offered exactly the payload sent and consume `Beh.took` of it (`min k n` for a handler that reads `k`
+ bytes, everything — or nothing if `n` is over the limit — for one that calls `UnmarshalTo` / `data()`); the caller gets exactly the payload, or — over
 the buffering limit — a message without payload (which `SendMessage` turns into an error: C10 `oversize_is_error`) -/
 theorem entitled_exactly_once (cfg : Cfg) (i : Nat) (f : WFrame) (aw : Bool) (beh : Beh) :
     ((expectedDeliveries cfg i f aw beh).map (·.party)).Nodup ∧
@@ -87,7 +88,7 @@ theorem entitled_exactly_once (cfg : Cfg) (i : Nat) (f : WFrame) (aw : Bool) (be
     ((∃ d ∈ expectedDeliveries cfg i f aw beh, d.party = .caller) ↔ aw = true) ∧
     (∀ p, p ≠ Party.caller → ((∃ d ∈ expectedDeliveries cfg i f aw beh, d.party = p) ↔ handlerParty cfg f.typ = some p)) ∧
     (∀ d ∈ expectedDeliveries cfg i f aw beh, d.party ≠ .caller →
-        d.offered = some f.payload ∧ d.took = min beh.want f.payload.length ∧ d.panicked = beh.isPanic) ∧
+        d.offered = some f.payload ∧ d.took = beh.took f.payload.length f.payload.length ∧ d.panicked = beh.isPanic) ∧
     (∀ d ∈ expectedDeliveries cfg i f aw beh, d.party = .caller →
         d.offered = if f.payload.length ≤ MaxBuf then some f.payload else none) := by
   cases aw <;> cases hhp : handlerParty cfg f.typ
